@@ -98,7 +98,7 @@ func (c *Config) Prepare() {
 		c.MaxConcretize = 64
 	}
 	if c.MaxGoroutines == 0 {
-		c.MaxGoroutines = 64
+		c.MaxGoroutines = 512
 	}
 	if c.QueryMS == 0 {
 		c.QueryMS = 20000
